@@ -30,12 +30,12 @@ CLAIMS = {
         "normalised index arithmetic, object identity of re-evaluated nodes",
     ),
     "C04": (
-        "ordered-replace-chain rule, guard-dominance (must) analysis for int() recognisers, kind analysis of _getitem, handler-class rule for exists, codec-domain rule; who-may-store rule (no memo in a class- or module-level container keyed without every argument read)",
+        "ordered-replace-chain rule, guard-dominance (must) analysis for int() recognisers, kind analysis of _getitem, handler-class rule for exists, codec-domain rule; who-may-store rule (no memo in a class- or module-level container keyed without every argument read); abstract execution of JSONPointer resolve / exists on every node of a covering document and on pointers RFC 6901 cannot evaluate",
         "decode/encode order, canonical index recogniser, scalar targets rejected, exists = success of resolve, decoder domain",
         "reachability of every node of every document",
     ),
     "C05": (
-        "sibling agreement and must-pass-through analysis on Op.apply bodies; kind/type discipline for member keys; taint rule for deep copy; handler-order rule; taint rule for every patch value that reaches the document",
+        "sibling agreement and must-pass-through analysis on Op.apply bodies; kind/type discipline for member keys; taint rule for deep copy; handler-order rule; taint rule for every patch value that reaches the document; abstract execution of JSONPatch(ops).apply on covering patches, compared with RFC 6902 written down separately (rules/rfc6902.py)",
         "insertion discipline incl. length consulted, member keys are strings, deep test equality, deep copy on copy, own-child check first, handler order",
         "resulting-document equality over operation sequences",
     ),
@@ -85,7 +85,7 @@ CLAIMS = {
         "the resolution law of joins",
     ),
     "C15": (
-        "dispatch-table agreement (loader branch / builder / Op.name / labels), writer-reader key sets, taint rule (stored value never aliased into the document), sibling diff of add variants; abstract execution of the patch loader per operation name and of its member lookup; must-pass-through rule for the builders' append",
+        "dispatch-table agreement (loader branch / builder / Op.name / labels), writer-reader key sets, taint rule (stored value never aliased into the document), sibling diff of add variants; abstract execution of the patch loader per operation name and of its member lookup; must-pass-through rule for the builders' append; abstract execution of the three constructions, asdicts() and repeated apply on covering operation lists",
         "dispatch agreement, builder-class-name agreement, asdict keys = loader keys, no aliasing of stored values, variant deltas",
         "equality of effects of the three constructions on all documents",
     ),
@@ -110,7 +110,7 @@ CLAIMS = {
         "structure of relative and root projections as a whole (rank compaction, no extra leaves)",
     ),
     "C20": (
-        "static part typing at match-construction sites, pass-through rules for pointer construction and patch builders, addressing rule in test/replace/remove; abstract execution of the selectors on covering small documents (typed location parts)",
+        "static part typing at match-construction sites, pass-through rules for pointer construction and patch builders, addressing rule in test/replace/remove; abstract execution of the selectors on covering small documents (typed location parts); abstract execution of match.pointer() -> test / replace / remove -> apply on every location of a covering document",
         "parts typed str/int as selected, pointer from parts without re-parsing, builder pass-through, exact-key-first addressing",
         "document equality after the edit",
     ),
